@@ -523,6 +523,11 @@ const (
 	cacheJanitor = 1
 	cacheTimed   = 2
 	cachePreAged = 4
+
+	cacheDefaultLife = 20 * time.Millisecond // default expiry of the timed configurations
+	cacheShortLife   = 5 * time.Millisecond  // the finite per-entry duration
+	cacheCleanup     = 10 * time.Millisecond // cleanup interval when the janitor runs
+	cachePreAge      = 7 * time.Millisecond  // simulated time that passes before the calls start (pre-aged)
 )
 
 // cacheInst is instantiated for several value types (cfg bits 8 and 16): a flaw may show only for
@@ -549,10 +554,21 @@ func (x *cacheInst[V]) dur(b int) time.Duration {
 	case 1:
 		return cache.DefaultExpiration
 	}
-	return 5 * time.Millisecond
+	return cacheShortLife
 }
 
 func (x *cacheInst[V]) item(it *cache.Item[V]) string { return x.rd(it.Val()) }
+
+// render is how the value made from b reads when it comes back from the cache; life is for how long
+// an entry stored with duration code b lives (ok=false: for ever). Used by the conservation oracle.
+func (x *cacheInst[V]) render(b int) string { return x.rd(x.mk(b)) }
+func (x *cacheInst[V]) life(b int, def time.Duration) (d time.Duration, finite bool) {
+	d = x.dur(b)
+	if d == cache.DefaultExpiration {
+		d = def
+	}
+	return d, d > 0
+}
 
 func (x *cacheInst[V]) listing(m map[string]*cache.Item[V]) string {
 	keys := make([]string, 0, len(m))
@@ -632,11 +648,11 @@ func (x *cacheInst[V]) container() any { return x.c }
 func buildCache[V any](init []int, cfg int, mk func(int) V, rd func(V) string) instance {
 	exp := time.Duration(cache.NoExpiration)
 	if cfg&cacheTimed != 0 {
-		exp = 20 * time.Millisecond
+		exp = cacheDefaultLife
 	}
 	var cl time.Duration
 	if cfg&cacheJanitor != 0 {
-		cl = 10 * time.Millisecond
+		cl = cacheCleanup
 	}
 	x := &cacheInst[V]{c: cache.New[string, V](exp, cl), timed: cfg&cacheTimed != 0, mk: mk, rd: rd}
 	for i, v := range init {
@@ -644,7 +660,7 @@ func buildCache[V any](init []int, cfg int, mk func(int) V, rd func(V) string) i
 	}
 	if cfg&cachePreAged != 0 && cfg&cacheTimed != 0 {
 		// only ever executed inside a bubble (see timedCfg): simulated, not real, time
-		time.Sleep(7 * time.Millisecond)
+		time.Sleep(cachePreAge)
 	}
 	return x
 }
